@@ -86,6 +86,17 @@ CHECKS = {
             "Oracle: vchecks/c16.py williams_* (shares no code with amaranth.lib.crc); refdata/crc_catalog.json is a frozen "
             "copy of the reveng values. Negative match clause only for polynomials with constant term 1.",
             "DESIGN.md §4 C16"),
+    "C14": ("exploration",
+            "Hypothesis-generated signature trees, interface tuples and single-point corruptions; oracle = effective-direction "
+            "model on the descriptor tree + simulation of the connected module (set every output leaf, read every input leaf)",
+            "Signature trees with nesting, array dimensions on ports and sub-interfaces, aggregate shapes and initial values "
+            "are generated; flipping laws, compliance of created objects, flatten order/direction and Component metadata are "
+            "compared with a direction model computed on the descriptor; connect() is exercised on 2..4 objects (flip pairs, "
+            "flipped() proxies, independent signatures with exactly one output per leaf, constants, differing signedness) and "
+            "judged end-to-end in simulation, under permuted argument order; each of six single-point corruptions must be "
+            "refused with ConnectionError.",
+            "Model in vchecks/c14.py. In-range initial values only; dimension mismatches not generated.",
+            "DESIGN.md §4 C14"),
 }
 
 TITLES = {}
